@@ -17,6 +17,16 @@ code -> spec : seeded random longer command lists (more exit statuses, signals, 
 Files below the output root: the TLC state holds what the statement requires (the task's directory and its two capture
 files); these must be found.  Whatever else is found is judged by TLC (clause Fs = RunCmd!FsCovers): allowed only below
 the directory of an accepted task, so a rejected name creates nothing; the clause is self-tested on made-up file systems.
+
+Names that some layer would interpret: besides letters and the characters a file name cannot hold, the name alphabet has the
+characters a shell, the process environment, glob or path expansion give a meaning to ($ ${ } ~ * ? % \\ quotes ` ; [ #
+newline, a leading -).  While tasks run, the process environment holds variables named like the letter atoms (a, b, ab, ..,
+stdout, stderr) whose values are other tasks' names, "..", "." and "", and HOME points next to the output root: a name that
+spells $a, ${b}, ~ .. is a valid file name, TLC treats its atoms as ordinary letters, so the directory must be the one
+named as written (clauses DirBelowRoot / DirInjective / DirNotCapture / Fs / DirAsSpecified).  Both directions: TLC
+enumerates all short names and pairs over a sub-alphabet {a, b} + three such atoms that rotates with the seed (NL_Sub; all
+windows in the thorough tier); the random name lists are drawn over small random sub-alphabets, and a share of the random
+command lists runs under such a name instead of 'task'.
 """
 import json
 import os
@@ -35,7 +45,17 @@ RUN_INVS = ['C19_DoneIffAllZero', 'C19_FailedOtherwise', 'C19_StopAtFirst', 'C19
             'C19_NeverEscapes', 'C19_Progress']
 NAME_INVS = ['C19_DirBelowRoot', 'C19_DirInjective', 'C19_DirNotCapture', 'C19_Rejected']
 ATOMS = {'a': 'a', 'b': 'b', '.': '.', '/': '/', 'NUL': '\0', 'stdout': 'stdout', 'stderr': 'stderr', 'sp': ' ',
-         'e9': u'é', 'dash': '-', 'nl': '\n'}
+         'e9': u'é', 'dash': '-', 'nl': '\n',
+         # what a shell / the environment / glob / path expansion would interpret.  The concrete spelling must stay uniquely
+         # decodable into atoms (TLC's names are sequences of atoms): '${' is an atom, so '{' alone must not be one
+         'dol': '$', 'dolbr': '${', 'rbr': '}', 'tilde': '~', 'star': '*', 'qm': '?', 'pct': '%', 'bsl': '\\', 'sq': "'",
+         'dq': '"', 'bq': '`', 'semi': ';', 'lsq': '[', 'hash': '#'}
+LETTERS = ['a', 'b', 'stdout', 'stderr']
+INTERPRETED = ['dol', 'dolbr', 'rbr', 'tilde', 'star', 'qm', 'pct', 'bsl', 'sq', 'dq', 'nl', 'dash', 'bq', 'semi', 'lsq', 'hash']
+PLAIN = [a for a in ATOMS if a not in LETTERS and a not in INTERPRETED]
+# the process environment while named tasks run: variables that names over the letter atoms refer to ($a, ${ab}, %b%, ..)
+# with the values another task's name, the way up, the directory itself, nothing, a capture file of another task
+NAME_ENV = {'a': 'b', 'b': '..', 'ab': 'a', 'ba': 'stdout', 'aa': '.', 'bb': '', 'stdout': 'a', 'stderr': 'a/stdout'}
 _TOKEN = re.compile(rb'<([OE])(\d+)\.(\d+)>')
 _POOL = 8
 
@@ -47,6 +67,27 @@ def _scratch(prefix):
         tlc._WORK.append(d)      # pylint: disable=protected-access
         return d
     return tlc.workdir(prefix)
+
+
+class _environ:
+    """The process environment of a names case: `env` (default NAME_ENV) and HOME = <scratch>/home, restored on exit."""
+
+    def __init__(self, root, env=None):
+        self.new = dict(NAME_ENV if env is None else env, HOME=os.path.join(root, 'home'))
+        self.old = {}
+
+    def __enter__(self):
+        for k, v in self.new.items():
+            self.old[k] = os.environ.get(k)
+            os.environ[k] = v
+
+    def __exit__(self, *exc):
+        for k, v in self.old.items():
+            if v is None:
+                os.environ.pop(k, None)
+            else:
+                os.environ[k] = v
+        return False
 
 
 def _octal(text):
@@ -112,32 +153,40 @@ def _tokens(path, stream):
 
 
 def observe_run(case):
-    """Execute one command list on a real RunTask; returns the observation."""
+    """Execute one command list on a real RunTask; returns the observation.  case['name'] (atoms; default 'task') is the
+    name of the task: the capture files are looked for in <output root>/<the name as written>, and the process environment
+    of a names case is in place."""
+    root = _scratch('c19r')
+    with _environ(root, case.get('env')):
+        return _observe_run(case, root)
+
+
+def _observe_run(case, root):
     from valjean.cosette.run import RunTask
     from valjean.cosette.env import Env
     from valjean.cosette.task import TaskStatus
-    root = _scratch('c19r')
     aux = os.path.join(root, '.aux')
     os.makedirs(aux)
     out_root = os.path.join(root, 'out')
     config = _config(out_root)
+    tname = concretise(case['name']) if case.get('name') else 'task'
     clis = [_cli(i, c, aux) for i, c in enumerate(case['cmds'], 1)]
     if case.get('prior'):
         # a task of the same name ran earlier into the same output root (an earlier session, or a re-execution): its
         # tokens are numbered from 51 so that anything left of them in the capture files of this run shows
         try:
-            RunTask.from_clis('task', [_cli(50 + i, c, aux) for i, c in enumerate(case['prior'], 1)]).do(Env(), config)
+            RunTask.from_clis(tname, [_cli(50 + i, c, aux) for i, c in enumerate(case['prior'], 1)]).do(Env(), config)
         except Exception:  # pylint: disable=broad-except
             pass
-    task = RunTask.from_clis('task', clis)
+    task = RunTask.from_clis(tname, clis)
     obs = dict(status='NONE', raised=False, escaped=False, rcs=[], exc='')
     if case['mode'] == 'direct':
         try:
             env_up, status = task.do(Env(), config)
             obs['status'] = TaskStatus(status).name
-            obs['rcs'] = [int(x) for x in env_up['task']['return_codes']]
-            paths = (env_up['task']['stdout'], env_up['task']['stderr'])
-            if os.path.dirname(paths[0]) != os.path.realpath(os.path.join(out_root, 'task')):
+            obs['rcs'] = [int(x) for x in env_up[tname]['return_codes']]
+            paths = (env_up[tname]['stdout'], env_up[tname]['stderr'])
+            if os.path.dirname(paths[0]) != os.path.realpath(os.path.join(out_root, tname)):
                 obs['exc'] = 'capture files outside the task directory: %s' % (paths,)
                 obs['status'] = 'NONE'
         except Exception as ex:  # pylint: disable=broad-except
@@ -154,7 +203,7 @@ def observe_run(case):
         except Exception as ex:  # pylint: disable=broad-except
             obs['escaped'] = True
             obs['exc'] = type(ex).__name__
-        entry = env.get('task', {})
+        entry = env.get(tname, {})
         try:
             obs['status'] = TaskStatus(entry.get('status')).name
         except ValueError:
@@ -163,8 +212,8 @@ def observe_run(case):
             obs['rcs'] = [int(x) for x in entry['return_codes']]
         else:
             obs['raised'] = True          # the task ended without a result: by an exception
-    obs['out'] = _tokens(os.path.join(out_root, 'task', 'stdout'), 'O')
-    obs['err'] = _tokens(os.path.join(out_root, 'task', 'stderr'), 'E')
+    obs['out'] = _tokens(os.path.join(out_root, tname, 'stdout'), 'O')
+    obs['err'] = _tokens(os.path.join(out_root, tname, 'stderr'), 'E')
     shutil.rmtree(root, ignore_errors=True)
     return obs
 
@@ -332,7 +381,7 @@ def _run_agrees(st, obs):
 def run_key(case, clauses):
     first_bad = next((c for c in case['cmds'] if c['exit'] != 0), None)
     shape = 'all-zero' if first_bad is None else 'cannot-start' if first_bad['exit'] is None else 'nonzero'
-    via = case.get('via', 'run') + ('/rerun' if case.get('prior') else '')
+    via = case.get('via', 'run') + ('/rerun' if case.get('prior') else '') + ('/name-interpreted' if case.get('name') else '')
     return 'C19/%s/%s/%s/%s' % (via, case['mode'], shape, '+'.join(sorted(set(clauses))))
 
 
@@ -343,12 +392,18 @@ def concretise(atoms):
     return ''.join(ATOMS[a] for a in atoms)
 
 
-def observe_names(names):
+def observe_names(names, env=None):
     """Run one trivial task per name, in order, under one output root; returns accepted indices,
-    reported directories and the file system below the root (in atoms)."""
+    reported directories and the file system below the root (in atoms).  While the tasks run the process environment holds
+    `env` (default NAME_ENV) and HOME = <scratch>/home."""
+    root = _scratch('c19n')
+    with _environ(root, env):
+        return _observe_names(names, root)
+
+
+def _observe_names(names, root):
     from valjean.cosette.run import RunTask
     from valjean.cosette.env import Env
-    root = _scratch('c19n')
     out_root = os.path.join(root, 'out')
     side = os.path.join(root, 'side')      # log / report roots: not the subject of the property, kept out of the way
     config = _config(out_root, side)
@@ -367,6 +422,8 @@ def observe_names(names):
         components stay distinct: one kind per path)."""
         if rel in ('', '.'):
             return []
+        if rel == os.pardir or rel.startswith(os.pardir + os.sep):
+            return [['OUTSIDE']]          # RunCmd!Outside: the path leaves the root
         return [comp.get(c, ['?' + re.sub(r'[^A-Za-z0-9._-]', lambda m: '%%%04x' % ord(m.group()), c)]) for c in rel.split(os.sep)]
 
     accepted, dirs, excs = [], [], []
@@ -431,25 +488,43 @@ _ALONE = {}
 
 
 def _alone(atoms):
-    """What a task with this name does when it is the only one (cached): (accepted, created something)."""
+    """What a task with this name does when it is the only one (cached): (accepted, created something, its directory is
+    <root>/<the name as written>)."""
     key = tuple(atoms)
     if key not in _ALONE:
         obs = observe_names([list(atoms)])
-        _ALONE[key] = (bool(obs['accepted']), bool(obs['fs']))
+        _ALONE[key] = (bool(obs['accepted']), bool(obs['fs']), obs['dirs'] == [[[list(atoms)]]])
     return _ALONE[key]
+
+
+def _minimal(atoms):
+    """A shortest sub-sequence of the name that, run alone, still does not get the directory named as written (used to name
+    the finding class only)."""
+    cur = list(atoms)
+    i = 0
+    while i < len(cur):
+        cand = cur[:i] + cur[i + 1:]
+        if cand and concretise(cand) not in ('.', '..') and _alone(cand)[0] and not _alone(cand)[2]:
+            cur = cand
+        else:
+            i += 1
+    return cur
 
 
 def names_key(names, obs, valid, clauses):
     """Finding class.  valid[j] = TLC's Valid(names[j]).  An invalid name that -- run alone -- is accepted or
     creates files is the culprit (one class per such name); a valid name that is rejected likewise;
-    otherwise the failing clauses name the class."""
-    culprits = sorted(set(repr(concretise(n)) for n, v in zip(names, valid) if not v and any(_alone(n))))
+    otherwise the failing clauses name the class -- with, as suffix, the atoms of INTERPRETED in those valid names whose
+    directory, when the task runs alone, is not the one named as written (some layer gave the name a meaning)."""
+    culprits = sorted(set(repr(concretise(n)) for n, v in zip(names, valid) if not v and any(_alone(n)[:2])))
     if culprits:
         return 'C19/name/invalid-name-not-rejected:' + ','.join(culprits)
     rejected = sorted(set(repr(concretise(n)) for n, v in zip(names, valid) if v and not _alone(n)[0]))
     if rejected:
         return 'C19/name/valid-name-rejected:' + ','.join(rejected)
-    return 'C19/name/%s' % '+'.join(sorted(set(clauses)))
+    shortest = sorted((_minimal(n) for n, v in zip(names, valid) if v and _alone(n)[0] and not _alone(n)[2]), key=lambda m: (len(m), m))
+    odd = sorted(set(a for a in shortest[0] if a in INTERPRETED)) if shortest else []
+    return 'C19/name/%s%s' % ('+'.join(sorted(set(clauses))), '/name-interpreted:' + '+'.join(odd) if odd else '')
 
 
 # ---------------------------------------------------------------------------------------------
@@ -491,7 +566,8 @@ def tlc_verdict(records, wd, ctx=None, name='RunCmdTrace'):
 
 def _fs_probes():
     """Made-up observations of two accepted tasks a, b (and a rejected one) with the verdict the clause Fs must give: what
-    a task leaves in its own directory is its business, anything else below the root is not.  [(case, obs, Fs fails)]"""
+    a task leaves in its own directory is its business, anything else below the root is not; and of two tasks $a, b with
+    the verdict of the directory clauses.  [(case, obs, clauses that must fail: none = no clause may fail)]"""
     def ent(path, kind, owner=0):
         return dict(path=[[c] for c in path], kind=kind, owner=owner)
     names = [['a'], ['b'], ['a', 'NUL']]
@@ -508,13 +584,28 @@ def _fs_probes():
         (need[:4] + [ent(['b', 'stdout'], 'file', 0), need[5]], True),          # ... or not only its task's
         (need + [ent(['OUTSIDE', '?'], 'file')], True)]
     dirs = [[[['a']]], [[['b']]], []]
-    return [(dict(op='names', names=names), dict(accepted=[1, 2], dirs=dirs, fs=fs, excs=['', '', 'probe']), bad) for fs, bad in variants]
+    probes = [(dict(op='names', names=names), dict(accepted=[1, 2], dirs=dirs, fs=fs, excs=['', '', 'probe']), {'Fs'} if bad else set())
+              for fs, bad in variants]
+    # names that a layer would interpret: tasks $a and b.  Each in the directory named as written: fine; $a taken as the
+    # value of a variable (b, or the way up): the directory clauses must fail
+    odd = [['dol', 'a'], ['b']]
+    lit = [ent(['b'], 'dir'), ent(['b', 'stdout'], 'file', 2), ent(['b', 'stderr'], 'file', 2)]
+    own = [dict(path=[['dol', 'a']] + [[c] for c in rest], kind=kind, owner=owner)
+           for rest, kind, owner in (([], 'dir', 0), (['stdout'], 'file', 1), (['stderr'], 'file', 1))]
+    probes.append((dict(op='names', names=odd), dict(accepted=[1, 2], dirs=[[[['dol', 'a']]], [[['b']]]], fs=own + lit, excs=['', '']), set()))
+    probes.append((dict(op='names', names=odd), dict(accepted=[1, 2], dirs=[[[['b']]], [[['b']]]], excs=['', ''],
+                                                     fs=[ent(['b'], 'dir'), ent(['b', 'stdout'], 'file', 2), ent(['b', 'stderr'], 'file', 0)]),
+                   {'DirInjective', 'DirAsSpecified', 'Fs'}))
+    probes.append((dict(op='names', names=odd), dict(accepted=[1, 2], dirs=[[[['OUTSIDE']]], [[['b']]]], excs=['', ''],
+                                                     fs=lit + [ent(['OUTSIDE', '?'], 'file')]),
+                   {'DirBelowRoot', 'DirAsSpecified', 'Fs'}))
+    return probes
 
 
 def _observe(case):
     if case['op'] == 'run':
         return observe_run(case) if case.get('via', 'run') == 'run' else observe_tool(case)
-    return observe_names(case['names'])
+    return observe_names(case['names'], case.get('env'))
 
 
 def replay_case(case):
@@ -532,9 +623,26 @@ def replay_case(case):
 
 # ---------------------------------------------------------------------------------------------
 
-def _consts(max_cmds, codes, outs, modes, ops, namelists, reject_empty=True):
+def _valid_name(rng):
+    """A random valid task name (atoms) over letters and interpreted atoms."""
+    while True:
+        nm = [rng.choice(LETTERS + INTERPRETED + ['.', 'sp']) for _x in range(rng.randint(1, 4))]
+        if concretise(nm) not in ('.', '..'):
+            return nm
+
+
+def _consts(max_cmds, codes, outs, modes, ops, namelists, reject_empty=True, alphabets=()):
     return {'MaxCmds': max_cmds, 'Codes': frozenset(codes), 'Outs': frozenset(outs), 'Modes': frozenset(modes),
-            'Ops': frozenset(ops), 'NameLists': Raw('<- ' + namelists), 'RejectEmpty': reject_empty, 'NoStart': Raw('NoStart')}
+            'Ops': frozenset(ops), 'NameLists': Raw('<- ' + namelists), 'NameAlphabets': frozenset(frozenset(a) for a in alphabets),
+            'RejectEmpty': reject_empty, 'NoStart': Raw('NoStart')}
+
+
+def _windows():
+    """The sub-alphabets of NL_Sub: two letters (names of other tasks and of environment variables) and three consecutive
+    atoms of INTERPRETED; the letters vary from one turn of the windows to the next."""
+    wins = [[INTERPRETED[(j + x) % len(INTERPRETED)] for x in range(3)] for j in range(0, len(INTERPRETED), 3)]
+    pairs = [('a', 'b'), ('a', 'stdout'), ('b', 'stderr')]
+    return [list(p) + w for p in pairs for w in wins]
 
 
 def _check_and_dump(ctx, wd, name, consts, invs, actions):
@@ -553,9 +661,13 @@ def _check_and_dump(ctx, wd, name, consts, invs, actions):
 def run_c19(ctx):
     ctx.rule('spec->code: every terminal state TLC dumps for RunCmd.tla -- all command lists (exit statuses x cannot-start x '
              'tokens per stream) called directly and under the scheduler, all lists of task names over the atoms a . / NUL stdout -- '
+             'plus all short names and pairs over a sub-alphabet {a, b} + three atoms a shell / the environment / glob / path '
+             'expansion would interpret ($ ${ } ~ * ? %% \\ quotes ` ; [ # newline -) that rotates with the seed (all windows when thorough), '
+             'with environment variables a, b, ab, .., stdout, stderr set to other tasks\' names, "..", "." and "" -- '
              'is executed on real RunTask objects with sh -c commands in a scratch output root and compared with the TLC state; '
              'code->spec: seeded random longer command lists (more statuses, signals, three kinds of unstartable executables) and '
-             'name lists over a larger alphabet are executed and judged by TLC (RunCmdTrace.tla); so are BuildTask and CheckoutTask '
+             'name lists over a larger alphabet (two in three over a small random sub-alphabet of letters and interpreted atoms; a '
+             'quarter of the command lists under such a task name) are executed and judged by TLC (RunCmdTrace.tla); so are BuildTask and CheckoutTask '
              '(valjean/cosette/code.py) with a scripted cmake / git that counts its invocations and exits as the plan says: the '
              'command list judged is the plan up to the number of invocations, targets / flags / ref vary. distinct_nontrivial counts '
              'distinct cases with at least one non-zero status, unstartable command or invalid / colliding name.')
@@ -602,11 +714,16 @@ def run_c19(ctx):
 
     # ---- spec -> code: names
     model_names = []      # these observations also go to RunCmdTrace: what was found beyond the TLC state is judged there
-    name_cfgs = [('names-triples', 'NL_Triples'), ('names-singles', 'NL_Singles')]
+    # names some layer would interpret: one sub-alphabet per quick run (it rotates with the seed), all of them in the thorough tier
+    wins = _windows()
+    sub = [wins[ctx.seed % len(wins)]]
+    name_cfgs = [('names-triples', 'NL_Triples', ()), ('names-singles', 'NL_SinglesSub', sub)]
     if not ctx.quick:
-        name_cfgs.append(('names-pairs', 'NL_Pairs'))
-    for name, nl in name_cfgs:
-        consts = _consts(0, [0], [0], ['direct'], ['names'], nl)
+        name_cfgs.append(('names-pairs', 'NL_Pairs', ()))
+        name_cfgs.append(('names-sub', 'NL_Sub', wins))
+    dbg('sub-alphabet of NL_Sub: %s' % (sub,))
+    for name, nl, alphabets in name_cfgs:
+        consts = _consts(0, [0], [0], ['direct'], ['names'], nl, alphabets=alphabets)
         states = [st for st in _check_and_dump(ctx, wd, name, consts, NAME_INVS, ['RunNamed']) if st['k'] == len(st['names']) + 1]
         lists = [[list(n) for n in st['names']] for st in states]
         dbg('%s: %d terminal states' % (name, len(lists)))
@@ -614,14 +731,14 @@ def run_c19(ctx):
         dbg('%s executed' % name)
         for st, names, obs in zip(states, lists, observations):
             n_exec += 1
-            model_names.append((dict(op='names', names=names), obs))
+            model_names.append((dict(op='names', names=names, env=dict(NAME_ENV)), obs))
             problems, exp = _names_agrees(st, obs)
             if problems:
                 valid = [j in exp['accepted'] for j in range(1, len(names) + 1)]
                 ctx.violation(names_key(names, obs, valid, problems),
                               'names %s: observed accepted=%s dirs=%s fs=%s (%s); RunCmd.tla: %s'
                               % ([concretise(n) for n in names], obs['accepted'], obs['dirs'], obs['fs'], obs['excs'], exp),
-                              dict(op='names', names=names), module='conf_runcmd')
+                              dict(op='names', names=names, env=dict(NAME_ENV)), module='conf_runcmd')
             if len(exp['accepted']) < len(names) or len(names) > 1:
                 ctx.distinct(('names', tuple(tuple(n) for n in names)))
             if n_exec % 499 == 1:
@@ -638,7 +755,8 @@ def run_c19(ctx):
             ('W_DoneAll', _consts(3, [0, 1], [1], ['direct'], ['run'], 'NL_None')),
             ('W_SchedFailed', _consts(2, [0, 1], [1], ['sched'], ['run'], 'NL_None')),
             ('W_Rejected', _consts(0, [0], [0], ['direct'], ['names'], 'NL_Triples')),
-            ('W_NestedName', _consts(0, [0], [0], ['direct'], ['names'], 'NL_Triples')))
+            ('W_NestedName', _consts(0, [0], [0], ['direct'], ['names'], 'NL_Triples')),
+            ('W_OddNamePair', _consts(0, [0], [0], ['direct'], ['names'], 'NL_Sub', alphabets=sub)))
 
     def _witness(arg):
         wit, consts = arg
@@ -648,7 +766,7 @@ def run_c19(ctx):
             raise tlc.MachineryError('witness %s not reachable in RunCmd.tla' % wit)
 
     from concurrent.futures import ThreadPoolExecutor
-    with ThreadPoolExecutor(max_workers=6) as tp:
+    with ThreadPoolExecutor(max_workers=7) as tp:
         list(tp.map(_witness, wits))
     ctx.count(evaluations=n_exec, traces=n_exec)
 
@@ -667,6 +785,8 @@ def run_c19(ctx):
             else:
                 cmds.append(dict(exit=rng.choice(codes), nout=rng.randint(0, 3), nerr=rng.randint(0, 3), how=''))
         cases.append(dict(op='run', mode='sched' if rng.random() < 0.3 else 'direct', cmds=cmds))
+        if rng.random() < 0.25:       # the task's name: letters and atoms some layer would interpret (a valid file name)
+            cases[-1]['name'] = _valid_name(rng)
         if rng.random() < 0.3:
             cases[-1]['prior'] = [dict(exit=rng.choice([0, 0, 1]), nout=rng.randint(0, 2), nerr=rng.randint(0, 2), how='')
                                   for _j in range(rng.randint(1, 3))]
@@ -680,14 +800,21 @@ def run_c19(ctx):
                           cmds=cmds, targets=rng.choice([-1, 0, 1, 2, 3]), cflags=rng.choice([None, [], ['-DA=1']]),
                           bflags=rng.choice([None, [], ['--', '-j2']]), ref=rng.choice([None, 'v1'])))
     atoms = list(ATOMS)
-    n_names = ctx.pick(600, 6000)
-    for _ in range(n_names):
+    n_names = ctx.pick(900, 9000)
+    for j_list in range(n_names):
+        # two lists in three over a small sub-alphabet of their own (one or two letters -- which are also names of
+        # environment variables --, one to three atoms some layer would interpret, sometimes one of the others): with few
+        # atoms the names of one list refer to each other ($a next to b, a* next to ab); the others over all atoms
+        if j_list % 3:
+            alpha = rng.sample(LETTERS, rng.randint(1, 2)) + rng.sample(INTERPRETED, rng.randint(1, 3)) + rng.sample(PLAIN, rng.randint(0, 1))
+        else:
+            alpha = atoms
         names = []
         for _j in range(rng.randint(1, 4)):
-            nm = [rng.choice(atoms) for _x in range(rng.choice([0, 1, 1, 2, 2, 3, 4]))]
+            nm = [rng.choice(alpha) for _x in range(rng.choice([0, 1, 1, 2, 2, 3, 4]))]
             if nm not in names:
                 names.append(nm)
-        cases.append(dict(op='names', names=names))
+        cases.append(dict(op='names', names=names, env=dict(NAME_ENV)))
     dbg('witnesses done')
     observations = pool.map(_observe, cases, chunksize=8)
     dbg('random cases executed')
@@ -709,11 +836,11 @@ def run_c19(ctx):
     records = [(cid, case, obs) for cid, (case, obs) in enumerate(pairs + [(c, o) for c, o, _bad in probes], 1)]
     verdict = tlc_verdict(records, wd, ctx, 'RunCmdTrace/random')
     # self-test of the clause Fs on the made-up observations: TLC must fail exactly the ones marked
-    for (cid, _case, obs), (_c, _o, bad) in zip(records[len(pairs):], probes):
+    for (cid, _case, obs), (_c, _o, must) in zip(records[len(pairs):], probes):
         got = verdict.pop(cid, [])
-        if ('Fs' in got) != bad or (not bad and got):
-            raise tlc.MachineryError('RunCmdTrace: clause Fs %s on the made-up file system %s (failing clauses %s)'
-                                     % ('holds' if bad else 'fails', obs['fs'], got))
+        if not must <= set(got) or (not must and got) or ('Fs' in got and 'Fs' not in must):
+            raise tlc.MachineryError('RunCmdTrace: on the made-up observation dirs=%s fs=%s the clauses %s fail, expected %s'
+                                     % (obs['dirs'], obs['fs'], sorted(got), sorted(must) or 'none'))
     records = records[:len(pairs)]
     # Valid(name) as TLC sees it, for the names of the failing lists: a single-name case observed as "rejected"
     # fails the clause Rejected exactly when the name is valid
